@@ -129,6 +129,7 @@ func (p *Parser) Reset() {
 	p.currentToken = token.Token{}
 	p.depth = 0
 	p.ctx = nil
+	p.ctxErr, p.sinceCtxPoll = nil, 0
 	p.positions = nil
 	p.strict = false
 	p.dialect = ""
@@ -233,6 +234,8 @@ type Parser struct {
 	currentToken token.Token
 	depth        int             // Current recursion depth
 	ctx          context.Context // Optional context for cancellation support
+	ctxErr       error           // the context's error once advance() has seen it done
+	sinceCtxPoll int             // tokens consumed since advance() last looked at the context
 	positions    []TokenPosition // Position mapping for error reporting
 	strict       bool            // Strict mode rejects empty statements
 	dialect      string          // SQL dialect for dialect-aware parsing (default: "postgresql")
@@ -362,6 +365,10 @@ func (p *Parser) ParseFromModelTokensWithPositions(tokens []models.TokenWithSpan
 
 // ParseContextFromModelTokens parses tokenizer output with context support for cancellation.
 func (p *Parser) ParseContextFromModelTokens(ctx context.Context, tokens []models.TokenWithSpan) (*ast.AST, error) {
+	// A context that is already done costs nothing: not even the conversion pass
+	if err := ctx.Err(); err != nil {
+		return nil, err
+	}
 	converted, err := convertModelTokens(tokens)
 	if err != nil {
 		return nil, fmt.Errorf("token conversion failed: %w", err)
@@ -545,7 +552,8 @@ func (p *Parser) ParseContext(ctx context.Context, tokens []token.Token) (*ast.A
 
 	// Store context for use during parsing
 	p.ctx = ctx
-	defer func() { p.ctx = nil }() // Clear context when done
+	p.ctxErr, p.sinceCtxPoll = nil, 0
+	defer func() { p.ctx, p.ctxErr, p.sinceCtxPoll = nil, nil, 0 }() // Clear context when done
 
 	p.tokens = tokens
 	p.positions = nil // no position mapping for this input (may be left from ParseWithPositions)
@@ -585,6 +593,15 @@ func (p *Parser) ParseContext(ctx context.Context, tokens []token.Token) (*ast.A
 		}
 
 		stmt, err := p.parseStatement()
+		if p.ctxErr != nil {
+			// advance() saw the context done and ended the token stream: whatever the
+			// statement parser made of that, the outcome is the cancellation
+			if err == nil && stmt != nil {
+				result.Statements = append(result.Statements, stmt)
+			}
+			ast.ReleaseAST(result)
+			return nil, fmt.Errorf("parsing cancelled: %w", p.ctxErr)
+		}
 		if err != nil {
 			// Clean up the AST on error
 			ast.ReleaseAST(result)
@@ -596,6 +613,10 @@ func (p *Parser) ParseContext(ctx context.Context, tokens []token.Token) (*ast.A
 		if p.isType(models.TokenTypeSemicolon) {
 			p.advance()
 		}
+	}
+	if p.ctxErr != nil {
+		ast.ReleaseAST(result)
+		return nil, fmt.Errorf("parsing cancelled: %w", p.ctxErr)
 	}
 
 	// Check if we got any statements
@@ -618,6 +639,7 @@ func (p *Parser) Release() {
 	p.currentToken = token.Token{}
 	p.depth = 0
 	p.ctx = nil
+	p.ctxErr, p.sinceCtxPoll = nil, 0
 }
 
 // parseStatement parses a single SQL statement using O(1) Type-based dispatch.
@@ -793,11 +815,40 @@ func (p *Parser) leaveNesting() { p.depth-- }
 // loop of the form "while the current token is X: advance, parse" always
 // terminates instead of spinning on the stale last token.
 func (p *Parser) advance() {
+	if p.ctx != nil {
+		p.pollContext()
+	}
 	p.currentPos++
 	if p.currentPos < len(p.tokens) {
 		p.currentToken = p.tokens[p.currentPos]
 	} else if p.currentPos > len(p.tokens) {
 		p.currentToken = token.Token{Type: models.TokenTypeEOF}
+	}
+}
+
+// ctxPollInterval is the number of tokens advance() consumes between two looks at
+// the context.
+const ctxPollInterval = 32
+
+// pollContext makes every loop of the parser cancellable, not only the ones that
+// pass through parseStatement or parseExpression: operator chains, column and table
+// lists, JOIN chains and the like consume their tokens through advance(). Once the
+// context is done the token stream ends here - the parse functions unwind on the
+// premature end of input - and ParseContext reports the context's error instead of
+// whatever that unwinding produced.
+func (p *Parser) pollContext() {
+	if p.ctxErr == nil {
+		p.sinceCtxPoll++
+		if p.sinceCtxPoll < ctxPollInterval {
+			return
+		}
+		p.sinceCtxPoll = 0
+		if p.ctxErr = p.ctx.Err(); p.ctxErr == nil {
+			return
+		}
+	}
+	if p.currentPos < len(p.tokens) {
+		p.currentPos = len(p.tokens)
 	}
 }
 
